@@ -526,6 +526,64 @@ fn run_boundary_candidates(cx: &mut CaseCx, case: &Value) {
   cx.outcome(format!("t={} k={}", t, k));
 }
 
+
+/// ONE dealer used for a long run: 700 shares from one `Evaluator` - all points distinct, none zero, every share
+/// on the polynomials fixed by the first t (counters that wrap after 255 / 256 / 512 steps would deal x = 0,
+/// i.e. the secret itself, or repeat a point)
+fn run_long_dealing(cx: &mut CaseCx, case: &Value) {
+  let t = case["t"].as_u64().unwrap() as u32;
+  let k = case["k"].as_u64().unwrap() as usize;
+  let se = sec_elems();
+  let elems: Vec<BigUint> = (0..k).map(|j| se[(j * 5 + 3) % se.len()].clone()).collect();
+  let secret = secret_bytes(&elems, 0);
+  let mut rng = ScriptRng::new(&[], 0x10E6);
+  let shares: Vec<Share> = match guard(|| Sharks(t).dealer_rng(&secret, &mut rng).map(|ev| ev.take(700).collect::<Vec<Share>>()).map_err(|e| e.to_string())) {
+    Ok(Ok(s)) => s,
+    other => {
+      cx.viol("C06/dealer-failed", format!("{:?}", other.map(|r| r.map(|s| s.len()))), json!({"t": t, "k": k}));
+      return;
+    }
+  };
+  cx.count("shares_dealt_by_one_dealer", shares.len() as u64);
+  if shares.len() != 700 {
+    cx.viol("C06/dealer-stops-early", format!("the dealer yields only {} shares", shares.len()), json!({"t": t, "k": k}));
+    return;
+  }
+  let polys = model_polys(&shares[..t as usize], k);
+  let mut seen: std::collections::HashMap<BigUint, usize> = std::collections::HashMap::new();
+  for (i, sh) in shares.iter().enumerate() {
+    let (x, ys) = share_pts(sh);
+    cx.eval();
+    if x.is_zero() {
+      cx.viol("C06/share-at-zero", format!("share number {} of one dealer sits at x = 0: its values are the secret itself", i + 1), json!({"t": t, "k": k, "share_number": i + 1}));
+      return;
+    }
+    if let Some(prev) = seen.insert(x.clone(), i) {
+      cx.viol("C06/dealer-repeats-point", format!("share number {} of one dealer repeats the point of share number {}", i + 1, prev + 1), json!({"t": t, "k": k, "share_number": i + 1}));
+      return;
+    }
+    for j in 0..k {
+      if ys.get(j) != Some(&rm::horner(&polys[j], &x)) {
+        cx.viol("C06/share-off-polynomial/long-run", format!("share number {} of one dealer is not on the polynomial fixed by its first {} shares", i + 1, t), json!({"t": t, "k": k, "share_number": i + 1}));
+        return;
+      }
+    }
+  }
+  // shares from far apart positions recover
+  for start in [0usize, 250, 254, 255, 256, 510, 511, 512, 699 - t as usize] {
+    let sel: Vec<Share> = (0..t as usize).map(|j| shares[(start + j * 89) % 700].clone()).collect();
+    cx.eval();
+    let sh = Sharks(t);
+    if guard(|| sh.recover(&sel).map_err(|e| e.to_string())) != Ok(Ok(secret.clone())) {
+      cx.viol("C06/recover-differs/long-run", format!("shares number {}.. (stride 89) of one dealer do not recover the secret", start + 1), json!({"t": t, "k": k, "first": start + 1}));
+      return;
+    }
+    cx.count("far_apart_shares_recover", 1);
+  }
+  cx.nontrivial(fnv_str(&case.to_string()));
+  cx.outcome(format!("t={} k={}", t, k));
+}
+
 /// every selection of a pool of t+2 shares (iterator + crafted random points)
 fn run_recover(cx: &mut CaseCx, case: &Value) {
   let t = case["t"].as_u64().unwrap() as u32;
@@ -845,6 +903,21 @@ pub fn spec() -> PropSpec {
         },
         run: run_boundary_candidates,
         min_counts: &[("boundary_candidates_agree", 100)],
+      },
+      Check {
+        name: "long-dealing-run",
+        rule: "ONE dealer, 700 consecutive shares ((t, k) in {1,2,3,5} x {1,2}): every point non-zero and new, every share on the k polynomials fixed by the first t (model), and t shares taken from far-apart positions (around 255, 256, 511, 512, the end; stride 89) recover the secret",
+        gen: |_| {
+          let mut v = vec![];
+          for t in [1u64, 2, 3, 5] {
+            for k in [1u64, 2] {
+              v.push(json!({"t": t, "k": k}));
+            }
+          }
+          v
+        },
+        run: run_long_dealing,
+        min_counts: &[("shares_dealt_by_one_dealer", 5000), ("far_apart_shares_recover", 60)],
       },
       Check {
         name: "recovery-selections",
